@@ -4,6 +4,7 @@ import BigtoolsModel.PyBedBinsProof
 import BigtoolsModel.PyArr
 import BigtoolsModel.PyOob
 import BigtoolsModel.OverlapsGen
+import BigtoolsModel.PyBinsNoNan
 /-! # C20 — Python-binding array routines compute the documented per-base and binned values
 
 Property theorems (statements copied from the lemma modules, proofs by those lemmas). -/
@@ -108,3 +109,30 @@ theorem C20_source_overlaps_is_the_models_ov (q qs qe b1 b1s b2 b2e : Nat) :
   gen_overlaps_eq_ov q qs qe b1 b1s b2 b2e
 
 end RT
+
+namespace PYN
+
+/-- **Never NaN, never a write outside the array — for every bin width.** The model of `to_array_bins` (bigWig exact bins,
+    repaired), for every request of `L > 0` bases in `nb > 0` bins — integral width or not —, every statistic and every list of
+    values as the reader hands them over (non-empty after clipping to the request): the array has `nb` cells and each is
+    `missing` or a quotient with a positive denominator. (Bin edges in exact arithmetic, `⌊k·L/nb⌋`; for integral widths that
+    is what the f64 expressions compute and the real arrays are compared cell by cell; for other widths the real arrays are
+    judged by the oracle for NaN and range.) As found, `values(0, 5, bins=2)` on `[2,3) = 1` gave `0/0` (D11). -/
+theorem C20_bins_never_nan_for_any_width (sm : Summary) (start : Int) (L nb : Nat) (hnb : 0 < nb) (hL : 0 < L)
+    (vals : List (Nat × Nat × Int)) (hc : Clipped start L vals) :
+    (toArrayBins repaired sm start L nb vals).length = nb ∧ ∀ r ∈ toArrayBins repaired sm start L nb vals, Good r :=
+  bins_no_nan sm start L nb hnb hL vals hc
+
+end PYN
+
+namespace PYN
+
+/-- the bigBed twin (`to_entry_array_bins`, repaired): for every request, every bin width and EVERY list of entries —
+    overlapping, nested, reaching outside the request or merely touching it — no NaN and no write outside the array -/
+theorem C20_entry_bins_never_nan_for_any_width (sm : Summary) (m : Int) (start : Int) (L nb : Nat) (hnb : 0 < nb)
+    (es : List (Nat × Nat)) :
+    (toEntryArrayBins repaired sm m start L nb es).length = nb ∧ ∀ r ∈ toEntryArrayBins repaired sm m start L nb es, Good r :=
+  entry_bins_no_nan sm m start L nb hnb es
+
+end PYN
+
